@@ -386,3 +386,44 @@ def minimal_mesh(patts):
         if m not in uniq:
             uniq.append(m)
     return [m for m in uniq if not any(o != m and mesh_in_mesh(o[0], o[1], m[0], m[1]) for o in uniq)]
+
+
+def av_incremental(basis, n, _cache={}):
+    """Av_n(basis) for a CLASSICAL basis, built level by level: a class of classical patterns is
+    downward closed, so every avoider of length n is a one-point extension (new maximum inserted
+    at some position) of an avoider of length n-1.  Different algorithm from `av` (which filters
+    all of S_n); cross-checked against it in C02's self-test."""
+    key = (tuple(sorted(tuple(b) for b in basis)), n)
+    if key in _cache:
+        return _cache[key]
+    bl = [tuple(b) for b in basis]
+    if n == 0:
+        res = [()] if not any(len(b) == 0 for b in bl) else []
+    else:
+        prev = av_incremental(basis, n - 1)
+        res = []
+        for t in prev:
+            for i in range(n):
+                cand = t[:i] + (n - 1,) + t[i:]
+                # only occurrences using the new maximum can be new
+                if not any(_contains_using(cand, b, i) for b in bl):
+                    res.append(cand)
+        res.sort()
+    if len(_cache) > 2000:
+        _cache.clear()
+    _cache[key] = res
+    return res
+
+
+def _contains_using(t, p, pos):
+    """does t contain p in an occurrence that uses position pos?"""
+    k = len(p)
+    if k > len(t):
+        return False
+    byval = inverse(p)
+    others = [i for i in range(len(t)) if i != pos]
+    for c in itertools.combinations(others, k - 1):
+        cc = tuple(sorted(c + (pos,)))
+        if _isomorphic(byval, t, cc):
+            return True
+    return False
